@@ -471,7 +471,13 @@ impl Lane for C01 {
             // giant, sparse: an empty start of order 300..2100, arcs added at and around the corners
             let n = draw_giant_order(rng);
             let mut steps = Vec::new();
+            // AdjacencyMap admits new vertices: half of its giants grow by ids at and just above the order
+            // (leaving holes), used as tails and as heads, in any order
+            let growing = kind == ReprKind::Map && rng.chance(1, 2);
             let corner = |rng: &mut Rng| -> usize {
+                if growing && rng.chance(1, 2) {
+                    return n + rng.below(4);
+                }
                 match rng.below(8) {
                     0 => 0,
                     1 => n - 1,
